@@ -38,10 +38,11 @@ class ItemQueue(Generic[WorkItemT]):
         self._unfinished_items = 0
         self._worker_ready_condition = asyncio.Condition()
         self._entry_count = 0
+        self._closed = False
 
     @asyncio.coroutine
     def put_item(self, item: WorkItemT):
-        while self._queue.qsize() > 0:
+        while self._queue.qsize() > 0 and not self._closed:
             yield from self._worker_ready_condition.acquire()
             yield from self._worker_ready_condition.wait()
             self._worker_ready_condition.release()
@@ -79,8 +80,23 @@ class ItemQueue(Generic[WorkItemT]):
 
     @asyncio.coroutine
     def wait_for_worker(self):
+        if self._closed:
+            return
+
         yield from self._worker_ready_condition.acquire()
         yield from self._worker_ready_condition.wait()
+        self._worker_ready_condition.release()
+
+    def open(self):
+        self._closed = False
+
+    @asyncio.coroutine
+    def close(self):
+        '''Release a producer waiting for workers that no longer exist.'''
+        self._closed = True
+
+        yield from self._worker_ready_condition.acquire()
+        self._worker_ready_condition.notify_all()
         self._worker_ready_condition.release()
 
 
@@ -187,6 +203,7 @@ class Pipeline(object):
     def process(self):
         if self._state == PipelineState.stopped:
             self._state = PipelineState.running
+            self._item_queue.open()
             self._producer_task = asyncio.get_event_loop().create_task(self._run_producer_wrapper())
             self._unpaused_event.set()
 
@@ -231,6 +248,7 @@ class Pipeline(object):
 
         self._worker_tasks.clear()
 
+        yield from self._item_queue.close()
         yield from self._producer_task
 
         self._state = PipelineState.stopped
@@ -240,6 +258,7 @@ class Pipeline(object):
             self._state = PipelineState.stopping
             self._producer.stop()
             self._kill_workers()
+            self._unpaused_event.set()
 
     @asyncio.coroutine
     def _run_producer_wrapper(self):
